@@ -224,15 +224,17 @@ impl Transformer {
             decorators,
         } = define_variable;
 
+        // The name and all of its aliases are subject to the same checks (reserved
+        // identifiers, clashes with units and other definitions).
         for (name, _) in decorator::name_and_aliases(identifier, decorators) {
             self.variable_names.push(name.to_compact_string());
-        }
-        if allow_shadowing {
-            self.prefix_parser
-                .add_shadowing_identifier(identifier, *identifier_span)?;
-        } else {
-            self.prefix_parser
-                .add_other_identifier(identifier, *identifier_span)?;
+            if allow_shadowing {
+                self.prefix_parser
+                    .add_shadowing_identifier(name, *identifier_span)?;
+            } else {
+                self.prefix_parser
+                    .add_other_identifier(name, *identifier_span)?;
+            }
         }
         self.transform_expression(expr);
 
